@@ -174,7 +174,7 @@ var QuerySitesMu sync.Mutex
 // Limits.
 const (
 	maxDepth      = 200
-	maxBlockVisit = 5000
+	maxBlockVisit = 20000
 )
 
 func (ex *Exec) fnInfoOf(fn *ssa.Function) *fnInfo {
